@@ -294,9 +294,28 @@ def inst_chirp_function():
     return out
 
 
+def _phase_scale(used):
+    """Rough size (cycles) of the chirp phase for the drawn inputs: the real code evaluates it in
+    float64, so its absolute error grows like |phase| * 2^-52 (the statement's oracle reduces the
+    exact phase modulo one cycle *before* rounding; the code cannot)."""
+    try:
+        dm = abs(float(Fraction(used.get("DM", 10))))
+        cf = abs(float(Fraction(used.get("cf", used.get("z_cf", 4e8)))))
+        ref = abs(float(Fraction(used.get("ref", cf)))) or cf
+        sr = abs(float(Fraction(used.get("z_sr", 0)))) if "z_sr" in used else (1.0 / abs(float(Fraction(used.get("dt", 1e-6)))))
+        worst = 0.0
+        for f in (cf - 2 * sr, cf + 2 * sr, cf):
+            if f != 0:
+                worst = max(worst, dm / 2.41e-4 * 1e12 * abs(f) * (1 / ref - 1 / f) ** 2)
+        return worst
+    except Exception:
+        return 0.0
+
+
 def _chirp_tol(label, used):
     from pyvc.concrete import Tol
-    return Tol(data_abs=5e-4)      # complex64 chirp; phases of many cycles lose absolute precision in float64 too
+    # complex64 chirp (6e-8) + float64 evaluation of a phase of many cycles
+    return Tol(data_abs=5e-4 + 2 * 3.1416 * _phase_scale(used) * 2e-15)
 
 
 _cf = Contract(f"{DMQ}.chirp_function", spec_chirp_function, inst_chirp_function(), props=("C05", "C09"))
@@ -410,7 +429,7 @@ def inst_coherent():
 
 def _coh_tol(label, used):
     from pyvc.concrete import Tol
-    return Tol(data_abs=2e-3)
+    return Tol(data_abs=2e-3 + 2 * 3.1416 * _phase_scale(used) * 4e-15)
 
 
 _co = Contract(f"{DD}.coherent_dedispersion", spec_coherent, inst_coherent(), props={"C05": None, "C01": TIME_PARTS, "C09": None})
